@@ -912,6 +912,24 @@ func c02ReadSide(t *testing.T, rec *kit.Rec) {
 			rec.Sample(map[string]any{"lie": lie, "lies_served": liesServed, "loads_of_target": loadsOfTarget, "call_accepted_data": accepted})
 		}
 	}
+	// a file stored under the all-zero name, read with the null ID: no special case may exempt it
+	// from the hash comparison (seeded change C02-2)
+	for _, v := range fixtures {
+		var zero restic.ID
+		for _, ft := range []backend.FileType{backend.SnapshotFile, backend.IndexFile, backend.PackFile} {
+			junk := rec.RNG("nullid", int(ft)).Bytes(200)
+			v.be.Put(ft, zero.String(), junk)
+			repo := c02Open(t, v.be, v.opts)
+			rec.Guard("load-panic", "null-id", func() {
+				buf, err := repo.LoadRaw(context.Background(), restic.FileType(ft), zero)
+				if err == nil {
+					rec.Violation("LoadRaw-returned-wrong-bytes", fmt.Sprintf("LoadRaw(%v, null id) returned %d bytes (sha256 %v) and no error", ft, len(buf), c02Sum(buf).String()[:8]), "null-id")
+				}
+			})
+			v.be.Drop(ft, zero.String())
+			rec.Case(kit.Sig("load-null-id", ft), true)
+		}
+	}
 	for _, v := range fixtures {
 		for _, s := range v.be.MonitorViolations() {
 			rec.Violation("I-ADDR-name-not-sha256", s, nil)
